@@ -682,7 +682,7 @@ func TestC28(t *testing.T) {
 		ID: "C28",
 		Rule: "Two modes in one check. config: files generated from refinery's own metadata (configMeta.yaml/rulesMeta.yaml: valid, near-valid and junk values, YAML mostly, some JSON/TOML); whatever config.NewConfig accepts is exercised as refinery does (all argument-free Config getters by reflection, per-destination lookups, Reload, the marshalling of /query/*rules, every sampler built by sample.SamplerFactory and run on 3 small traces). " +
 			"request: 1-5 mutated requests (truncate, flip, set, insert/overwrite hostile length headers, dup, cut, splice with another format, repeat, JSON type swaps; real gzip/zstd then mutations of the compressed stream; wrong content types/encodings; hostile event-time/samplerate/dataset) on every HTTP route of the incoming and the peer listener and on the gRPC trace, logs, health and unknown methods of a live Router. " +
-			"The refinery side runs in a child process; a violation is reported only when a brand-new child reproduces it. Non-trivial: config mode = validation accepted a file into which the generator had put at least one near-valid/junk value; request mode = at least one request was really mutated (or the process died). Distinct = distinct case JSON.",
+			"The refinery side runs in a child process (crashes, os.Exit and CPU spins are observed from outside); a violation is reported only when a brand-new child reproduces it. Hand-kept regression cases of fixed defects carry a tag that is appended to their signatures so a known finding can never mask them. Non-trivial: config mode = validation accepted a file into which the generator had put at least one near-valid/junk value; request mode = at least one request was really mutated (or the process died). Distinct = distinct case JSON.",
 		Assumptions: []string{
 			"a panic or exit during validation/loading itself is outside the statement ('configuration that passes validation'): counted in coverage key validator_panics, not reported as a violation",
 			"a missing reply within the wall deadline (30 s per request, 90 s per config) is inconclusive; a hang is reported only when the server process burnt >= 6 CPU-seconds on one request (<= 6 MB) without answering: CPU time does not depend on how busy the machine is",
